@@ -11,6 +11,7 @@
 //   - the fields of public objects that receive the decoded value (a small flow-insensitive taint
 //     analysis inside the enclosing case clause / function: variables defined from the accessor call,
 //     then everything assigned from them; `err` is ignored; a switch on a tainted tag taints its body).
+//
 // Object roots are named by their declared type (way *osm.Way -> "Way", n := &osm.Node{} -> "Node",
 // dec.primitiveBlock -> "PrimitiveBlock"), so renaming local variables or private fields is invisible.
 // Only go/parser is used (package osmpbf has cgo / non-cgo twins that do not type-check together).
@@ -29,9 +30,28 @@ import (
 	"sort"
 	"strconv"
 	"strings"
-
-	"verif/translator/tr"
 )
+
+// emit / coqString: local copies of the two helpers of verif/translator/tr, so that this translator does not
+// depend on the (concurrently edited) shared package building
+type trT struct{}
+
+var tr trT
+
+func (trT) Emit(path string, content []byte) error {
+	old, err := os.ReadFile(path)
+	if err == nil && bytes.Equal(old, content) {
+		return nil
+	}
+	if err := os.MkdirAll(filepath.Dir(path), 0o755); err != nil {
+		return err
+	}
+	return os.WriteFile(path, content, 0o644)
+}
+
+func (trT) CoqString(s string) string {
+	return "\"" + strings.ReplaceAll(s, "\"", "\"\"") + "\""
+}
 
 func fail(f string, a ...interface{}) {
 	fmt.Fprintf(os.Stderr, "translator pbfcode: "+f+"\n", a...)
@@ -274,12 +294,23 @@ func (fi *fileInfo) taintTargets(scope ast.Node, recvText string, recv string, v
 				case *ast.ForStmt:
 					// a nested field loop over another message has its own dispatch table
 					if nestedLoop(x, recvText) != "" {
-						targets = addUniq(targets, "sub:"+nestedLoop(x, recvText))
+						if !strings.Contains(recvText, ".") { // recvText is itself a message being dispatched
+							targets = addUniq(targets, "sub:info")
+						}
 						return false
 					}
 				case *ast.SwitchStmt:
 					if x.Tag != nil && mentions(x.Tag, taint) && !forced {
 						walk(x.Body, true)
+						return false
+					}
+				case *ast.IfStmt:
+					// control dependence: if t == A { x.f = ... } else if ...
+					if mentions(x.Cond, taint) && !forced {
+						walk(x.Body, true)
+						if x.Else != nil {
+							walk(x.Else, true)
+						}
 						return false
 					}
 				case *ast.AssignStmt:
@@ -364,16 +395,21 @@ func (fi *fileInfo) iteratorUse(iterText string, recv string) (elem []string, ta
 		vt := varTypes(fd)
 		r := recvName(fd)
 		// innermost case clause scoping
+		var felem []string
 		for _, sc := range scopesWith(fd, iterText) {
 			m, t := fi.taintTargets(sc, iterText, r, vt)
 			for _, x := range m {
 				if x != "Iterator" {
-					elem = append(elem, x)
+					felem = append(felem, x)
 				}
 			}
 			for _, x := range t {
 				targets = addUniq(targets, x)
 			}
+		}
+		// the same iterator consumed the same way in several functions (a helper inlined twice) counts once
+		if len(felem) > 0 && !(len(elem) > 0 && reflect.DeepEqual(elem, felem)) {
+			elem = append(elem, felem...)
 		}
 		// passed on to another function
 		ast.Inspect(fd.Body, func(n ast.Node) bool {
@@ -472,6 +508,27 @@ func scopesWith(fd *ast.FuncDecl, recvText string) []ast.Node {
 	return out
 }
 
+// canonMsg: the message variable of the first `x.FieldNumber()` of a function is "msg", every other one
+// (a nested sub-message loop) is "info", whatever the variables are called
+func canonMsg(fd *ast.FuncDecl, v string) string {
+	primary := ""
+	ast.Inspect(fd.Body, func(n ast.Node) bool {
+		if primary != "" {
+			return false
+		}
+		if c, ok := n.(*ast.CallExpr); ok {
+			if r := fieldNumberRecv(c); r != "" {
+				primary = r
+			}
+		}
+		return true
+	})
+	if v == primary {
+		return "msg"
+	}
+	return "info"
+}
+
 // fieldNumberOf: x.FieldNumber() -> "x"
 func fieldNumberRecv(e ast.Expr) string {
 	c, ok := e.(*ast.CallExpr)
@@ -562,8 +619,8 @@ func (fi *fileInfo) dispatches(fd *ast.FuncDecl) map[string][]arm {
 				return true
 			}
 			name := fd.Name.Name
-			if mv != "msg" {
-				name += "_" + mv
+			if canonMsg(fd, mv) != "msg" {
+				name += "_" + canonMsg(fd, mv)
 			}
 			count[name]++
 			if count[name] > 1 {
@@ -655,7 +712,6 @@ func fnCond(e ast.Expr, fnVar string) (int, string, bool) {
 	return 0, "", false
 }
 
-
 // ---------- loop-body structure ----------
 
 // frule: a rule about found-flags: kind "nil" (if !flag { iterators = nil }), "error" (if !flag { return
@@ -705,13 +761,13 @@ func (fi *fileInfo) foundRules(fd *ast.FuncDecl) []frule {
 					if len(as.Lhs) == 1 && len(as.Rhs) == 1 {
 						if id, ok := as.Lhs[0].(*ast.Ident); ok {
 							if v, ok := as.Rhs[0].(*ast.Ident); ok && v.Name == "true" {
-								flagArm[id.Name] = armRef{mv, num}
+								flagArm[id.Name] = armRef{canonMsg(fd, mv), num}
 							}
 						}
 					}
 					if len(as.Rhs) == 1 {
 						if r, mth, ok := isAccessorCall(as.Rhs[0]); ok && r == mv && mth == "Iterator" {
-							iterArm[render(as.Lhs[0])] = armRef{mv, num}
+							iterArm[render(as.Lhs[0])] = armRef{canonMsg(fd, mv), num}
 						}
 					}
 				}
@@ -781,17 +837,18 @@ func (fi *fileInfo) foundRules(fd *ast.FuncDecl) []frule {
 		}
 		if fl, ok := flagsOf(is.Cond, false); ok {
 			r := frule{kind: "use", flags: fl}
+			// what the guarded block fills: fields of the element being decoded (a parameter of the function);
+			// whether the work is done in place or in a helper is not recorded
+			ptypes := map[string]bool{}
+			if fd.Type.Params != nil {
+				for _, p := range fd.Type.Params.List {
+					ptypes[typeName(p.Type)] = true
+				}
+			}
 			ast.Inspect(is.Body, func(m ast.Node) bool {
-				switch y := m.(type) {
-				case *ast.CallExpr:
-					if id, ok := y.Fun.(*ast.Ident); ok {
-						if _, ok := fi.funcs[id.Name]; ok {
-							r.info = addUniq(r.info, "call:"+id.Name)
-						}
-					}
-				case *ast.AssignStmt:
+				if y, ok := m.(*ast.AssignStmt); ok {
 					for _, l := range y.Lhs {
-						if t := fi.target(l, recv, vt); t != "" {
+						if t := fi.target(l, recv, vt); t != "" && ptypes[strings.SplitN(t, ".", 2)[0]] {
 							r.info = addUniq(r.info, "set:"+t)
 						}
 					}
@@ -957,7 +1014,7 @@ func (fi *fileInfo) formulas(fd *ast.FuncDecl) [][2]string {
 			return true
 		}
 		if id, ok := as.Lhs[0].(*ast.Ident); ok && interesting(as.Rhs[0]) {
-			localForm[id.Name] = subst(as.Rhs[0])
+			localForm[id.Name] = subst(unparen(as.Rhs[0]))
 			return true
 		}
 		t := fi.target(as.Lhs[0], recv, vt)
@@ -966,7 +1023,7 @@ func (fi *fileInfo) formulas(fd *ast.FuncDecl) [][2]string {
 		}
 		f := ""
 		if interesting(as.Rhs[0]) {
-			f = subst(as.Rhs[0])
+			f = subst(unparen(as.Rhs[0]))
 		}
 		// one level of local substitution: time.Unix(0, millisec.Nanoseconds())
 		for l, lf := range localForm {
@@ -1022,10 +1079,14 @@ func main() {
 
 	// ---------- decode_data.go ----------
 	file := parseFile(filepath.Join(repo, "osmpbf", "decode_data.go"))
+	helpers := inlineFile(file) // normal form: helpers and closures inlined into their call sites
 	fi := &fileInfo{funcs: map[string]*ast.FuncDecl{}, fieldTypes: map[string]string{}}
 	for _, d := range file.Decls {
 		switch x := d.(type) {
 		case *ast.FuncDecl:
+			if x.Recv == nil && helpers[x.Name.Name] {
+				continue // lives on, inlined, in its callers
+			}
 			fi.funcs[x.Name.Name] = x
 		case *ast.GenDecl:
 			for _, s := range x.Specs {
@@ -1072,7 +1133,6 @@ func main() {
 	}
 	fmt.Fprintf(&b, "Definition dispatch_names : list string := %s.\n\n", coqList(names))
 
-
 	// loop-body structure: found-flag rules, accumulation kinds, value formulas
 	var fnList []string
 	for n := range fi.funcs {
@@ -1104,9 +1164,10 @@ func main() {
 		}
 		ast.Inspect(fd.Body, func(n ast.Node) bool {
 			sw, ok := n.(*ast.SwitchStmt)
-			if !ok || sw.Tag == nil || fieldNumberRecv(sw.Tag) != mv {
+			if !ok || sw.Tag == nil || fieldNumberRecv(sw.Tag) == "" || canonMsg(fd, fieldNumberRecv(sw.Tag)) != mv {
 				return true
 			}
+			mvReal := fieldNumberRecv(sw.Tag)
 			for _, st := range sw.Body.List {
 				cc := st.(*ast.CaseClause)
 				if len(cc.List) != 1 {
@@ -1121,7 +1182,7 @@ func main() {
 					if !ok || len(as.Rhs) != 1 {
 						continue
 					}
-					if r, m, ok := isAccessorCall(as.Rhs[0]); ok && r == mv && m == "Iterator" {
+					if r, m, ok := isAccessorCall(as.Rhs[0]); ok && r == mvReal && m == "Iterator" {
 						it := render(as.Lhs[0])
 						kind := ""
 						for _, fn2 := range fnList {
@@ -1226,6 +1287,7 @@ func main() {
 
 	// ---------- decode.go: decodeOSMHeader ----------
 	dfile := parseFile(filepath.Join(repo, "osmpbf", "decode.go"))
+	inlineFile(dfile)
 	var hdr *ast.FuncDecl
 	for _, d := range dfile.Decls {
 		if fd, ok := d.(*ast.FuncDecl); ok && fd.Name.Name == "decodeOSMHeader" {
